@@ -153,18 +153,49 @@ def stepGht (s : St) (ws : List String) : St × String :=
       | none => (s, "bad-op")
   | [] => (s, "bad-op")
 
+/-! COLT forest sub-driver: `#case <n> colt=3` (only arity 3 is instantiated by the harness)
+  F insert <row>     -> true                 (row of exactly m fields, goes to the leaf trie)
+  F get <h1[,h2..]>  -> chained `ColtGet::get` from the root along the path (1..m heads); prints the
+                        cursor: the dumps of the nodes at that path in the tries of height |path|..m, `|`-joined
+  F dump             -> dumps of all m+1 tries, `|`-joined
+  F rows             -> all rows of the forest, sorted -/
+def stepColt (F : Forest) (ws : List String) : Forest × String :=
+  if F.m != 3 then (F, "bad-op") else
+  match ws with
+  | ["F", "insert", r] => match parseRow F.m r with
+    | some r => (F.insert r, "true")
+    | none => (F, "bad-op")
+  | ["F", "get", p] => match parseRowAny p with
+    | some p =>
+      if p.length ≥ 1 && p.length ≤ F.m then
+        let F' := coltGets F p
+        let idx := (List.range (F.m + 1)).filter (fun i => p.length ≤ i)
+        (F', "|".intercalate (idx.map fun i => match nodeAt i p (F'.tries i) with
+          | some ⟨j, c⟩ => dump j c
+          | none => "?"))
+      else (F, "bad-op")
+    | none => (F, "bad-op")
+  | ["F", "dump"] => (F, "|".intercalate ((List.range (F.m + 1)).map fun i => dump i (F.tries i)))
+  | ["F", "rows"] => (F, showSorted F.rows)
+  | _ => (F, "bad-op")
+
 inductive Mode
   | ght (s : St)
   | morph (m : MorphSt)
+  | colt (F : Forest)
 
 def step (md : Mode) (line : String) : Mode × String :=
   let l := line.trimAscii.toString
   match l.splitOn " " with
   | "#case" :: ws =>
-    if (tagVal ws "bim").isSome then (.morph (freshMorph ws), l) else (.ght (freshSt ws), l)
+    if (tagVal ws "bim").isSome then (.morph (freshMorph ws), l)
+    else match tagVal ws "colt" with
+      | some m => (.colt (Forest.empty ((m.toNat?).getD 0)), l)
+      | none => (.ght (freshSt ws), l)
   | ws => match md with
     | .ght s => let r := stepGht s ws; (.ght r.1, r.2)
     | .morph m => let r := stepMorph m ws; (.morph r.1, r.2)
+    | .colt F => let r := stepColt F ws; (.colt r.1, r.2)
 
 partial def loop (h : IO.FS.Stream) (out : IO.FS.Stream) (md : Mode) : IO Unit := do
   let line ← h.getLine
